@@ -51,6 +51,39 @@ def native_faults(data, rng, thorough):
     return out
 
 
+def long_string_streams():
+    """well-formed streams (built record by record here) whose every string-carrying record holds a long string of mixed
+    character widths: 1-, 2-, 3- and 4-byte characters at varying byte offsets, so that whatever position a reader or an error
+    path cuts, measures or pads at falls inside a multi-byte character for some of them"""
+    import struct
+    from .c15 import py_encode
+
+    def rec(rt, dt, payload=b""):
+        return struct.pack(">HBB", 4 + len(payload), rt, dt) + payload
+
+    def s(text):
+        b = text.encode("utf-8")
+        return b + (b"\0" if len(b) % 2 else b"")
+
+    def real(x):
+        return struct.pack(">Q", py_encode(struct.unpack(">Q", struct.pack(">d", x))[0]))
+    dates = struct.pack(">12h", 124, 1, 2, 3, 4, 5, 124, 1, 2, 3, 4, 5)
+    out = []
+    for k in (14, 30, 31, 47, 63, 119, 120, 127, 255, 256, 1023, 4095):
+        for ch in ("\u00e9", "\u4e2d", "\U0001F600"):
+            for shift in (0, 1):
+                t = "a" * (k - shift) + ch * 3 + "tail" + ch
+                b = rec(0, 2, struct.pack(">h", 600)) + rec(1, 2, dates) + rec(2, 6, s("L" + t)) + rec(3, 5, real(1e-3) + real(1e-9))
+                b += rec(5, 2, dates) + rec(6, 6, s("S" + t))
+                b += rec(8, 0) + rec(13, 2, struct.pack(">h", 1)) + rec(14, 2, struct.pack(">h", 0)) + rec(16, 3, struct.pack(">10i", 0, 0, 5, 0, 5, 5, 0, 5, 0, 0))
+                b += rec(43, 2, struct.pack(">h", 7)) + rec(44, 6, s("P" + t)) + rec(17, 0)
+                b += rec(12, 0) + rec(13, 2, struct.pack(">h", 2)) + rec(22, 2, struct.pack(">h", 0)) + rec(16, 3, struct.pack(">2i", 1, 1)) + rec(25, 6, s("T" + t)) + rec(17, 0)
+                b += rec(10, 0) + rec(18, 6, s("R" + t)) + rec(16, 3, struct.pack(">2i", 3, 3)) + rec(17, 0)
+                b += rec(7, 0) + rec(4, 0)
+                out.append((f"long{k}-{shift}-{len(ch.encode('utf-8'))}", b))
+    return out
+
+
 def py_has_endlib(b):
     p = 0
     while True:
@@ -119,6 +152,13 @@ def run(chk):
         data = open(path, "rb").read()
         for (name, i, b) in native_faults(data, rng, thorough):
             extra.append({"id": f"{fn}:{name}@{i}", "bytes": list(b), "want_log": False, "_he": py_has_endlib(b)})
+    lss = long_string_streams()
+    for (nm, data) in (lss if thorough else lss[::3]):
+        extra.append({"id": f"valid-{nm}", "bytes": list(data), "want_log": False, "_he": True})
+        for (name, i, b) in native_faults(data, rng, True):
+            if name.startswith(("truncate", "setlen")) and not thorough and i % 3:
+                continue
+            extra.append({"id": f"{nm}:{name}@{i}", "bytes": list(b), "want_log": False, "_he": py_has_endlib(b)})
     # well-formed streams of the independent encoder in EVERY value profile (dates, strings, reals, flags), unfaulted: whatever
     # the reader returns for them must be stable under write and re-read (the third clause of the property)
     gen = G.generate(chk, thorough, want_unsupported=False, simulate=False)
@@ -170,7 +210,7 @@ def run(chk):
         rule="faulted streams = (stream of the independent encoder: one element, every optional-record subset) x (one fault: "
              "truncate at every [3rd] byte and the last 6, length field in {0,2,3,65534,65535,len-2,len+2}, zero payload, record "
              "type in {4,6,7,16,17,20,60,255}, data type 0..7, drop, duplicate, swap, splice), enumerated by TLC; the same faults "
-             "natively on repository streams; random noise. All are distinct byte strings and non-trivial (a fault was applied).",
+             "natively on repository streams and on streams whose every string is long and of mixed character widths; random noise. All are distinct byte strings and non-trivial (a fault was applied).",
         assumptions=["time proportional to input length is decided as a work bound on the read log (calls <= length + 4, bytes "
                      "delivered <= length) plus a 5 s watchdog per stream, not by a clock",
                      "read logs are validated by TLC for a sample of generated streams; the scalar bounds are computed for all"])
